@@ -1402,3 +1402,43 @@ import bisect as _bisect_mod
 _BUILTIN_TABLE[_bisect_mod.bisect_right] = _b_bisect_right
 import zlib as _zlib
 _BUILTIN_TABLE[_zlib.decompressobj] = _b_decompressobj
+
+
+crc_fn = z3.Function('crc32', ArrS, IntS, IntS, IntS, IntS)      # crc32 of arr[lo:hi] continued from an initial value
+
+
+def _b_crc32(M, I, args, kw, node):
+    """binascii.crc32(data, value=0) (assumed contract on the dependency: a running checksum, i.e.
+    crc32(a + b, v) == crc32(b, crc32(a, v)) and crc32(b'', v) == v; result in [0, 2^32))"""
+    data = args[0] if isinstance(args[0], SBytes) else M.to_sbytes(I, args[0])
+    init = args[1] if len(args) > 1 else kw.get('value', 0)
+    I.assumptions.add('binascii.crc32 is a running checksum: crc32(a + b, v) == crc32(b, crc32(a, v)), crc32(b"", v) == v')
+    lo, n = to_int(data.off), to_int(data.n)
+    hi = z3.simplify(lo + n)
+    iv = to_int(init)
+    # chaining: an initial value that is itself the checksum of the bytes just before this chunk extends that checksum
+    if z3.is_app(iv) and iv.decl().eq(crc_fn) and iv.arg(0).eq(data.arr) and (I.pure or I.ctx.provable(iv.arg(2) == lo)):
+        r = crc_fn(data.arr, iv.arg(1), hi, iv.arg(3))
+    else:
+        r = crc_fn(data.arr, lo, hi, iv)
+    I.ctx.assume(z3.And(r >= 0, r < 2 ** 32))
+    I.ctx.assume(z3.Implies(n == 0, r == iv))
+    # ground instances of the chaining property for every checksum term of the same bytes known on this path:
+    # if the initial value is the checksum of arr[a:lo] (from i0), the result is the checksum of arr[a:hi] (from i0)
+    seen, stack, found = set(), list(I.ctx.pc), []
+    while stack:
+        t = stack.pop()
+        if not z3.is_expr(t) or t.get_id() in seen:
+            continue
+        seen.add(t.get_id())
+        if z3.is_app(t) and t.decl().eq(crc_fn) and t.arg(0).eq(data.arr) and not t.eq(r):
+            found.append(t)
+        if not z3.is_quantifier(t):
+            stack.extend(t.children())
+    for t in found[:8]:
+        I.ctx.assume(z3.Implies(z3.And(t.arg(2) == lo, iv == t), r == crc_fn(data.arr, t.arg(1), hi, t.arg(3))))
+    return r
+
+
+import binascii as _binascii
+_BUILTIN_TABLE[_binascii.crc32] = _b_crc32
